@@ -1,6 +1,8 @@
 /-
   Adapter/MuxT.lean — C08, component `muxt`: line-protocol face of Model/MuxT.lean and the
-  executable specification over histories.  Import-free.
+  executable specification over histories.  `comp` is the transport by itself (`St`, `Op`);
+  `pcomp`, what the driver runs as `muxt`, is the transport together with the callers blocked on
+  its open result (`PSt`, `POp`).  Import-free.
 -/
 import ScalesModel.Core.Run
 import ScalesModel.Model.MuxT
@@ -39,6 +41,7 @@ structure Obs where
   sent : List Item              -- frames that reached the peer during this operation
   inflight : List Nat           -- request ids in `_tag_map`, in insertion order
   conns : Nat
+  parked : List Nat := []       -- request ids of the callers blocked on the open result, oldest first
   deriving Repr, DecidableEq
 
 def stepOut (s : St) : Op → St × Out
@@ -55,7 +58,7 @@ def stepOut (s : St) : Op → St × Out
   | .look => (s, {})
 
 def obsOf (s : St) (o : Out) : Obs :=
-  ⟨s.cstate, s.openRes, o.eff.faults, o.eff.dels, o.sent, s.tagMap.map (·.2), o.eff.conns⟩
+  ⟨s.cstate, s.openRes, o.eff.faults, o.eff.dels, o.sent, s.tagMap.map (·.2), o.eff.conns, []⟩
 
 def step (_ : Unit) (s : St) (op : Op) : St × Obs :=
   let (s', o) := stepOut s op
@@ -124,12 +127,12 @@ def decORes : V → Option ORes
 
 def encObs (o : Obs) : V :=
   .l [encCS o.state, encORes o.openRes, V.ofNat o.faults, .l (o.dels.map encDel),
-      .l (o.sent.map encItem), V.ofNats o.inflight, V.ofNat o.conns]
+      .l (o.sent.map encItem), V.ofNats o.inflight, V.ofNat o.conns, V.ofNats o.parked]
 
 def decObs : V → Option Obs
-  | .l [st, r, f, .l ds, .l sent, infl, c] => do
+  | .l [st, r, f, .l ds, .l sent, infl, c, pk] => do
       pure ⟨← decCS st, ← decORes r, ← f.nat?, ← ds.mapM decDel, ← sent.mapM decItem,
-            ← infl.natList?, ← c.nat?⟩
+            ← infl.natList?, ← c.nat?, ← pk.natList?⟩
   | _ => none
 
 /-! ### specification over a history
@@ -153,13 +156,21 @@ def decObs : V → Option Obs
                   was closed on purpose cannot carry anything, so it does not report `open`
                   after a `Close()` — wherever in a drain that `Close()` lands.
 
+  A request handed to the transport while its open is pending (`park`: the caller blocks on the
+  open result) is a request the transport has accepted: from then on it is owed exactly one
+  response like a request in the tag map.  If the open then fails — refused connect, a fault of a
+  read or a write or ping silence during the handshake, wherever in a drain — that is a connection
+  failure with this request in flight: it must be handed an error in that very operation.  If the
+  open succeeds it is in flight like any other request (its frame is written by a later
+  successful write).
+
   Nothing is demanded for requests in flight at a deliberate `Close()`. -/
 
 structure Acc where
   owed : List Nat := []
   abandoned : List Nat := []
   prev : CS := .idle
-  unsent : List Nat := []       -- accepted on an open transport, frame not yet seen on the wire
+  unsent : List Nat := []       -- issued and not answered on the spot, frame not yet seen on the wire
   idx : Nat := 0
   deriving Repr
 
@@ -246,7 +257,7 @@ def vCarry (a : Acc) (op : Op) (o : Obs) : Verdict :=
 def nextUnsent (a : Acc) (op : Op) (o : Obs) : List Nat :=
   let unsent1 : List Nat :=
     match op with
-    | .req id _ => if a.prev = .opened then a.unsent ++ [id] else a.unsent
+    | .req id _ => if o.dels.any (fun d => d.1 == id) then a.unsent else a.unsent ++ [id]
     | _ => a.unsent
   unsent1.filter (fun id => !(o.sent.any (fun it => itemId it == some id)))
 
@@ -353,5 +364,107 @@ def comp : TComp Unit St Op Obs where
   decObs := decObs
   spec := spec
   wf := fun _ ops => opsOk St.init [] ops
+
+/-! ### the transport with the callers blocked on its open result (component `muxt`)
+
+  The operations of the transport itself (`tr`), `Open()` in two steps — the connect is in
+  progress (`openStart`), the connect concludes (`connected`) —, and a request handed to the
+  transport while its open is pending (`park`).  Every operation ends with the end of its drain
+  (`PSt.finish`): if the open result was set, the blocked callers go on.
+
+  The specification sees these operations through `POp.view`: a parked request is a request
+  (owed one response from the moment it is issued; not answered on the spot, so its frame may be
+  written later), a connect that concludes is the `Open()` with that outcome — a refused connect
+  or a connection that is reset / ended at once is a connection failure —, the beginning of a
+  connect is nothing. -/
+
+inductive POp where
+  | tr (op : Op)                  -- an operation of the transport itself
+  | openStart                     -- Open(); `_OpenImpl` blocks in the connect; drain
+  | connected (r : Conn) (rs : List (IOOut × Frame))
+                                  -- the connect in progress concludes with `r`; if it is accepted the
+                                  -- outcomes `rs` of the receive loop's first reads are already there
+                                  -- (`[]`: nothing is); drain
+  | park (id : Nat) (tag : Nat)   -- AsyncProcessRequest while the open is pending: the caller blocks on
+                                  -- the open result.  `tag`: what the pool hands it if it goes on
+  deriving Repr, DecidableEq
+
+def stepOutP (ps : PSt) : POp → PSt × Out
+  | .tr op => ps.finish (stepOut ps.t op).1 ps.connecting (stepOut ps.t op).2
+  | .openStart => ps.openStart
+  | .connected r rs => ps.connected r rs
+  | .park id tag => ps.park id tag
+
+def obsOfP (ps : PSt) (o : Out) : Obs :=
+  { obsOf ps.t o with parked := ps.parked.map (·.1) }
+
+def stepP (_ : Unit) (ps : PSt) (op : POp) : PSt × Obs :=
+  ((stepOutP ps op).1, obsOfP (stepOutP ps op).1 (stepOutP ps op).2)
+
+def decPOp : List V → Option POp
+  | [.a "openstart"] => some .openStart
+  | [.a "connected", r, .l rs] => do pure (.connected (← decConn r) (← rs.mapM decRead))
+  | [.a "park", id, tag] => do pure (.park (← id.nat?) (← tag.nat?))
+  | vs => (decOp vs).map .tr
+
+/-- the operation as the specification sees it -/
+def POp.view : POp → Op
+  | .tr op => op
+  | .openStart => .look
+  | .connected .refuse _ => .openT .refuse
+  | .connected .ok rs => .openBurst rs
+  | .park id tag => .req id tag
+
+def viewH (h : List (POp × Obs)) : List (Op × Obs) := h.map (fun p => (p.1.view, p.2))
+
+def specP (_ : Unit) (h : List (POp × Obs)) : Verdict := spec () (viewH h)
+
+/-! hypotheses: as for the transport's own operations; a request is not issued as `req` while the
+    open is pending (the caller blocks: that is `park`, and only then); `Open()` is called once,
+    either way; `connected` needs a connect in progress; ids are fresh; the tags the pool hands
+    to the blocked callers are distinct and not 0 or 1 (C11). -/
+
+def enabledP (ps : PSt) (seen : List Nat) : POp → Bool
+  | .tr op => enabled ps.t seen op && ((isReq op).isNone || !ps.waiting)
+  | .openStart => ps.t.cstate = .idle && !ps.t.hasOpenResult && !ps.connecting
+  | .connected _ _ => ps.connecting
+  | .park id tag =>
+    !seen.contains id && ps.waiting && decide (2 ≤ tag) && !(ps.parked.any (fun p => p.2 == tag))
+
+def opsOkP (ps : PSt) (seen : List Nat) : List POp → Bool
+  | [] => true
+  | op :: ops =>
+    enabledP ps seen op &&
+      opsOkP (stepOutP ps op).1 (match isReq op.view with | some id => id :: seen | none => seen) ops
+
+/-- state after an operation list -/
+def runOpsP (ps : PSt) (ops : List POp) : PSt := ops.foldl (fun s op => (stepOutP s op).1) ps
+
+/-- the operation meets a connection failure (`connFailure`) — of the transport itself, or the
+    connect in progress is refused, or it is accepted and one of the first reads, already there,
+    fails — unless a `Close()` has shut the transport down while the connect was in progress -/
+def connFailureP (ps : PSt) : POp → Bool
+  | .tr op => connFailure ps.t op
+  | .connected .refuse _ => ps.connecting && ps.t.cstate ≠ .closed
+  | .connected .ok rs => ps.connecting && ps.t.cstate ≠ .closed && rs.any (fun r => r.1 ≠ .ok)
+  | _ => false
+
+/-- the requests the transport has accepted and not answered: those in the tag map and those
+    blocked on the open result -/
+def PSt.inflight (ps : PSt) : List Nat := ps.t.tagMap.map (·.2) ++ ps.parked.map (·.1)
+
+/-- number of responses request `id` was handed in a history -/
+def responsesToP (id : Nat) (h : List (POp × Obs)) : Nat :=
+  (h.map (fun p => p.2.dels.countP (fun d => d.1 == id))).sum
+
+def pcomp : TComp Unit PSt POp Obs where
+  decCfg := fun _ => some ()
+  init := fun _ => PSt.init
+  decOp := decPOp
+  step := stepP
+  encObs := encObs
+  decObs := decObs
+  spec := specP
+  wf := fun _ ops => opsOkP PSt.init [] ops
 
 end Scales.MuxT
